@@ -2830,6 +2830,12 @@ class LinearOperator(object):
         squeeze_row = False
         squeeze_col = False
         if isinstance(row_index, int):
+            if not -self.size(-2) <= row_index < self.size(-2):
+                raise IndexError(
+                    "index {} is out of bounds for dimension {} with size {}".format(
+                        row_index, ndimension - 2, self.size(-2)
+                    )
+                )
             if row_index < 0:  # slice(-1, 0) would be empty
                 row_index = row_index + self.size(-2)
             # (when the matrix dimensions are absorbed into tensor indices, an integer acts as a tensor index too)
@@ -2837,6 +2843,12 @@ class LinearOperator(object):
                 row_index = slice(row_index, row_index + 1, None)
                 squeeze_row = True
         if isinstance(col_index, int):
+            if not -self.size(-1) <= col_index < self.size(-1):
+                raise IndexError(
+                    "index {} is out of bounds for dimension {} with size {}".format(
+                        col_index, ndimension - 1, self.size(-1)
+                    )
+                )
             if col_index < 0:
                 col_index = col_index + self.size(-1)
             if not row_col_are_absorbed:
